@@ -14,7 +14,9 @@ import (
 	"deps.dev/util/resolve/version"
 )
 
-func c05PK(name string) resolve.PackageKey { return resolve.PackageKey{System: resolve.PyPI, Name: name} }
+func c05PK(name string) resolve.PackageKey {
+	return resolve.PackageKey{System: resolve.PyPI, Name: name}
+}
 func c05VK(name, ver string) resolve.VersionKey {
 	return resolve.VersionKey{PackageKey: c05PK(name), VersionType: resolve.Concrete, Version: ver}
 }
@@ -295,7 +297,6 @@ func c05Purity(es []c05Entry, root resolve.VersionKey, mk func(resolve.Client) r
 	}
 	c05SameGraph(c05Clone(g1), c05Clone(g2), "with the versions inserted in the opposite order")
 }
-
 
 func VerifC05PyPI() {
 	u := c08rBuild()
